@@ -294,6 +294,77 @@ TET = ['ElementTetP1', 'ElementTetP2', 'ElementTetMini', 'ElementTetCCR', 'Eleme
 HEX = ['ElementHex1', 'ElementHexS2', 'ElementHex2', 'ElementHexRT1']
 
 
+def curved_continuity_config(h, mesh, cls, spec):
+    """Curved second-order meshes (vertices AND mid-side nodes symbolic): across the shared curved edge the two cell maps trace the
+    same curve and the discrete function of an H1 element takes the same value from both sides, at a symbolic edge parameter."""
+    import skfem as S
+    from dataclasses import replace
+    from skfem.assembly import Dofs
+    from checks.c10 import quadratic_weights
+    from engine.astdiff import dsym
+    from engine.symnp import det_obj
+    with warnings.catch_warnings():
+        warnings.simplefilter('ignore')
+        m1 = make_mesh(h, mesh)
+        C = getattr(S, cls)
+        M0 = C.from_mesh(m1)
+        nv = m1.p.shape[1]
+        _, pn, tn = topo(mesh)
+        Mf = C.from_mesh(getattr(S, type(m1).__name__)(pn, tn))
+        nomv = np.asarray(Mf.doflocs, dtype=float)[:, nv:]
+        nomv = nomv + ((np.arange(nomv.size).reshape(nomv.shape) * 7 % 5) - 2) / 64.0
+        q = h.sym('q', nomv.shape, nominal=nomv)
+        P = np.empty(M0.doflocs.shape, dtype=object if h.sym_mode else float)
+        P[:, :nv] = M0.doflocs[:, :nv]
+        P[:, nv:] = q
+        M = replace(M0, doflocs=P)
+        mp = M._mapping()
+        em = M.elem()
+        edm = np.asarray(M.dofs.element_dofs)
+        e = make_elem(spec)
+        dd = Dofs(M, e)
+        ed = np.asarray(dd.element_dofs)
+        N = int(dd.N)
+        x = h.sym('x', (N,), nominal=(np.arange(N) * 5 % 7) - 2.5)
+        lam = h.sym('lam', (), nominal=0.3125)
+        if h.sym_mode:
+            h.assume(h.And(lam > 0, lam < 1))
+        t = np.asarray(M.t)
+        nn = M.refdom.nnodes
+        R = np.asarray(M.refdom.p, dtype=float)
+        f2t = np.asarray(M.f2t)
+        fac = np.asarray(M.facets)
+        ifac = [int(f) for f in np.nonzero(f2t[1] != -1)[0]]
+        h.sample(dict(mesh=mesh, cls=cls, element=spec, interior_facets=ifac, symbolic_nodes=int(P.shape[1])))
+        for f in ifac:
+            sides = []
+            for side in (0, 1):
+                K = int(f2t[side, f])
+                loc = [int(np.nonzero(t[:nn, K] == fac[a, f])[0][0]) for a in range(2)]
+                X = np.empty((2, 1), dtype=object if h.sym_mode else float)
+                for d in range(2):
+                    X[d, 0] = (1 - lam) * float(R[d, loc[0]]) + lam * float(R[d, loc[1]])
+                if h.sym_mode:
+                    # precondition: the curved cell map is non-degenerate at the point (own second-order map from the node table)
+                    Xs = [h.sym('X%d_%d_%d' % (f, side, d), (), nominal=0.3) for d in range(2)]
+                    w = quadratic_weights(em, Xs)
+                    o = [sum(w[a] * P[d, edm[a, K]] for a in range(len(w))) for d in range(2)]
+                    J = np.array([[dsym(tosym(o[a]), Xs[b], {}) for b in range(2)] for a in range(2)], dtype=object)
+                    import z3
+                    dJ = tosym(det_obj(J))
+                    sub = [(tosym(Xs[d]).a, tosym(X[d, 0]).a) for d in range(2)]
+                    h.assume(Sym(z3.substitute(dJ.a, *sub)) != 0)
+                tind = np.array([K], dtype=np.int32)
+                xphys = mp.F(X, tind=tind)[:, 0, 0]
+                val = 0
+                for i in range(ed.shape[0]):
+                    val = val + x[ed[i, K]] * np.asarray(e.gbasis(mp, X, i, tind=tind)[0].value)[0, 0]
+                sides.append((xphys, val))
+            for d in range(2):
+                h.zero('facet %d: both cell maps reach the same point of the curved edge [%d]' % (f, d), sides[0][0][d] - sides[1][0][d])
+            h.zero('facet %d: value jump across the curved edge' % f, sides[0][1] - sides[1][1])
+
+
 def build_configs(tier, seed):
     quick = tier == 'quick'
     rng = np.random.RandomState(seed)
@@ -365,6 +436,10 @@ def build_configs(tier, seed):
         for spec in ['ElementQuadRT1', 'ElementQuad2'] + ([] if quick else ['ElementQuadN1']):
             add('quad4grid/shift=%s/%s' % (''.join(map(str, sh)), spec), mesh='quad4grid', spec=spec, pt=shifted('quad4grid', sh), via='direct',
                 free=[1], timeout=900 if quick else 3000)
+    # --- curved second-order meshes ------------------------------------------------------------------------------------------------------------
+    for mesh, cls, spec in [('tri2', 'MeshTri2', 'ElementTriP2'), ('tri2', 'MeshTri2', 'ElementTriP1'), ('quad2', 'MeshQuad2', 'ElementQuad2'),
+                            ('quad2', 'MeshQuad2', 'ElementQuad1')] + ([] if quick else [('tri2', 'MeshTri2', 'ElementTriP3'), ('quad2', 'MeshQuad2', 'ElementQuadS2')]):
+        cfgs.append(dict(name='curved/%s/%s/%s' % (mesh, cls, spec), fn=curved_continuity_config, kw=dict(mesh=mesh, cls=cls, spec=spec), opts=dict(timeout=900)))
     # --- two tetrahedra: vertex numberings ---------------------------------------------------------------------------------------------------
     perms5 = list(itertools.permutations(range(5)))
     sel = [perms5[i] for i in (sorted(rng.choice(len(perms5), 12, replace=False)) if quick else range(len(perms5)))]
@@ -403,7 +478,7 @@ META = dict(
     bounds=dict(tri='two triangles in all 24 vertex numberings, 3-cell fan', quad='two quadrilaterals, all 16 cyclic shifts; 2x2 patch in 6 (thorough: all 256) shift combinations',
                 tet='two tetrahedra, 12 (thorough: all 120) numberings; quick: one free vertex', hex='two hexahedra, 24 rotations of the second, numeric geometry',
                 histories='element object reused on a renumbered mesh; mesh after adaptive refinement; sort_t=False for one-DOF-per-facet elements'),
-    outside=['curved meshes', 'larger meshes', 'ElementTriN3 through FacetBasis (its gbasis rejects per-cell point arrays; covered by the direct route)',
+    outside=['curved meshes beyond value continuity of H1 elements on MeshTri2/MeshQuad2 (H(div)/H(curl) on curved cells, curved 3-D cells)', 'larger meshes', 'ElementTriN3 through FacetBasis (its gbasis rejects per-cell point arrays; covered by the direct route)',
              'triangle meshes with sort_t=False for elements with several DOFs per facet (documented by the library)'],
     stubs=[],
     assumptions=['mesh validity (non-degenerate cells, neighbours on opposite sides of the shared facet, convex quadrilaterals)'],
